@@ -604,6 +604,8 @@ def run(tier):
     chk.floor('rule instances', len(chk.obls), 35)
     from .. import lints
     lints.length_is_boolean(chk, ['src/x509/'])
+    from .. import t0mandatory as _t0m
+    _t0m.check(chk, ('x509_minimal', 'x509_decoder'))
     from .. import lints as _lints_ir
     _lints_ir.ignored_result_regression(chk, ['src/x509/'])
     return chk.finish()
